@@ -2,14 +2,18 @@
 before numdifftools is imported).
 
 ``emit(event, **fields)`` appends one record to the in-process list ``EVENTS`` when tracing is
-on and is a no-op otherwise.  ``yield_point(name)`` lets a test harness install a scheduler that
+on and is a no-op otherwise; if NUMDIFFTOOLS_VERIF_LOG names a file the record is also appended
+to it as one JSON line (with the process id), so that runs of the ordinary test-suite can be
+checked afterwards.  ``yield_point(name)`` lets a test harness install a scheduler that
 decides which thread continues at named points; without a scheduler it does nothing.
 """
+import json
 import os
 import threading
 
 ON = os.environ.get('NUMDIFFTOOLS_VERIF') == '1'
 EVENTS = []
+LOG = os.environ.get('NUMDIFFTOOLS_VERIF_LOG') if ON else None
 SCHEDULER = None
 _LOCK = threading.Lock()
 
@@ -21,6 +25,11 @@ def emit(event, **fields):
         with _LOCK:
             fields['seq'] = len(EVENTS)
             EVENTS.append(fields)
+            if LOG:
+                if len(EVENTS) > 100000:      # nobody drains the list in a log-only run
+                    del EVENTS[:]
+                with open(LOG, 'a') as log:
+                    log.write(json.dumps(dict(fields, pid=os.getpid()), default=str) + '\n')
 
 
 def yield_point(name, **fields):
